@@ -148,6 +148,7 @@ class Interp:
         self.stores = []  # (target description, value, node) for attribute / subscript stores on abstract objects
         self.global_cache = {}
         self.instantiate = True
+        self.sorted_ids = set()
         self.subst = {}  # Sym -> Lin (after unfolding a Run)
         self.excluded = {}  # Lin shape -> set of excluded values of the non-constant part
         self.unfolded = {}  # Run -> replacement atoms
@@ -675,6 +676,18 @@ class Interp:
                 if not maybe:
                     return False
                 return self.fork("in: %s" % short(node))
+            if isinstance(item, AObj) or any(isinstance(k, AObj) for k in container):
+                self.events.append(("in", container, item, node))
+                for k in container:
+                    if k is item:
+                        return True
+                for k in container:
+                    if isinstance(k, AObj) or isinstance(item, AObj):
+                        if self.compare(ast.Eq, k, item, node):
+                            return True
+                    elif not _has_abs(k) and not _has_abs(item) and k == item:
+                        return True
+                return False
             for k in container:
                 if isinstance(k, (Opaque,)):
                     return self.fork("in: %s" % short(node))
@@ -1056,6 +1069,8 @@ class Interp:
             r = recv.a_method(self, name, args, kwargs, node)
             if r is not NotImplemented:
                 return r
+        if recv is None:
+            raise RaiseEx("AttributeError", node)
         if isinstance(recv, AClass) and name == "__subclasses__":
             return [AClass(c) for c in self.repo.subclasses(recv.ci)]
         if isinstance(recv, (set, frozenset)) and name in ("issubset", "issuperset", "union", "intersection") \
@@ -1076,6 +1091,9 @@ class Interp:
             self.events.append(("method", "%s.%s" % (recv.name, name), args, node))
             return Opaque("method:%s" % name, [recv] + list(args))
         if isinstance(recv, list):
+            if name in ("append", "extend", "insert", "reverse", "pop", "remove"):
+                self.sorted_ids.discard(id(recv))
+                self.events.append(("mutate:" + name, recv, list(args), node))
             if name == "append":
                 recv.append(args[0]); return None
             if name == "extend":
@@ -1100,7 +1118,11 @@ class Interp:
                         return None
                 raise RaiseEx("ValueError", node)
             if name == "sort" and not _has_abs(recv):
-                recv.sort(); return None
+                recv.sort(**kwargs) if not kwargs else recv.sort(); self.sorted_ids.add(id(recv)); return None
+            if name == "sort":
+                self.events.append(("sort", recv, None, node))
+                self.sorted_ids.add(id(recv))
+                return None
         if isinstance(recv, dict):
             if name == "keys":
                 return list(recv.keys())
@@ -1302,6 +1324,11 @@ class Interp:
             raise CannotDecide("super() form")
         if name == "sorted" and isinstance(args[0], (list, tuple)) and not _has_abs(args[0]) and not kwargs:
             return sorted(args[0])
+        if name == "sorted" and isinstance(args[0], (list, tuple)):
+            r = list(args[0])
+            self.events.append(("sort", r, None, node))
+            self.sorted_ids.add(id(r))
+            return r
         if name == "isinstance":
             return self.isinstance_(args[0], args[1], node)
         if name in ("int", "float", "str", "abs", "bool", "min", "max", "sum", "round", "ord", "chr") \
@@ -1313,6 +1340,11 @@ class Interp:
                 raise RaiseEx(type(e).__name__, node)
         if name == "int" and isinstance(args[0], Lin):
             return args[0]
+        if name in ("max", "min") and len(args) == 2 and not kwargs and all(Lin.of(a) is not None and not isinstance(a, (str, float)) for a in args) \
+                and any(isinstance(a, Lin) for a in args):
+            ge = self.compare_lin(ast.GtE, Lin.of(args[0]), Lin.of(args[1]), node)
+            first_wins = ge if name == "max" else not ge
+            return args[0] if first_wins else args[1]
         if name in ("int", "len", "str", "repr", "float") and args and isinstance(args[0], AObj) and args[0].cls is not None:
             dn = {"int": "__int__", "len": "__len__", "str": "__str__", "repr": "__repr__", "float": "__float__"}[name]
             if self.repo.find_method(args[0].cls, dn) is not None:
